@@ -4,7 +4,7 @@
    self.filenames, [ss] is sorted_sources, [setup_build req ss = Some s] means setup_build returned
    (None = KeyError) having written the statements [plan s] and the imports files [store s]. *)
 From Coq Require Import List NArith Bool Arith Relations.
-From PV Require Import Plan.Model Plan.Proofs.
+From PV Require Import Plan.Model Plan.Proofs Plan.StmtProofs Plan.CoverProofs.
 Import ListNotations.
 
 (* ---- 1. every requested file that is analysed at all is checked exactly once ------------- *)
@@ -34,6 +34,26 @@ Theorem imports_entries_produced : forall req ss s,
   p = PDefault \/ exists t', In t' (plan s) /\ s_out t' = p /\ clos_trans step (dep_edge (plan s)) t' t.
 Proof. exact imports_entries_produced_lemma. Qed.
 Print Assumptions imports_entries_produced.
+
+(* completeness: every statement is the one written for some yielded item, and its map has an entry
+   (keyed by _module_to_output_path) for each module the item was given as a dependency ... *)
+Theorem imports_cover_deps : forall req ss s,
+  setup_build req ss = Some s ->
+  forall t, In t (plan s) -> exists i, In i (yield_sorted_modules req ss) /\ written_for t i.
+Proof. exact imports_cover_deps_lemma. Qed.
+Print Assumptions imports_cover_deps.
+
+(* ... where a single-pass or first-pass item is given its group's direct deps, and a second-pass item
+   the direct deps plus every member of its import cycle (the first-pass outputs feed the second pass) *)
+Theorem item_deps : forall req ss i, In i (yield_sorted_modules req ss) ->
+  exists g d, In (g, d) ss /\ In (it_mod i) g /\
+  match it_stage i with
+  | SECOND_PASS => it_deps i = d ++ g /\ length g <> 1
+  | FIRST_PASS => it_deps i = d /\ length g <> 1
+  | SINGLE_PASS => it_deps i = d /\ length g = 1
+  end.
+Proof. exact item_deps_lemma. Qed.
+Print Assumptions item_deps.
 
 (* what a statement wrote is what its .imports file holds at the end, when module names are distinct
    (monitored hypothesis: the file is named after module.name) *)
@@ -126,6 +146,43 @@ Theorem module_binding_roundtrip_partial : forall s rest,
 Proof. exact raw_value_lemma. Qed.
 Print Assumptions module_binding_roundtrip_partial.
 
+(* the whole build statement as write_build_statement writes it (output, rule, input, `| deps`, the two
+   indented bindings), read by the model of ninja's manifest parser: exactly the strings that went in.
+   good_path = non-empty, no newline/CR/'|'/NUL; ident = rule name over [a-zA-Z0-9_.-];
+   module_ok: with esc_mod = true (fixed tree) any value; with esc_mod = false (code as found) additionally
+   no '$' and no leading space. *)
+Theorem build_statement_roundtrip : forall esc_mod t rest,
+  good_path (t_out t) -> good_path (t_input t) -> (forall d, In d (t_deps t) -> good_path d) ->
+  ident (t_action t) -> good_value (t_imports t) -> module_ok esc_mod (t_module t) ->
+  parse_build (render esc_mod t ++ rest) =
+  Some (Parsed [lits (t_out t)] (t_action t) [lits (t_input t)] (map lits (t_deps t))
+               [(kw_imports, lits (t_imports t)); (kw_module, lits (t_module t))], rest).
+Proof. exact build_statement_roundtrip_lemma. Qed.
+Print Assumptions build_statement_roundtrip.
+
+(* without the restriction on the raw module name it is refuted: module "x$y" (file x$y.py) *)
+Definition st_dollar : stmt :=
+  Stmt [111]%N [99; 104; 101; 99; 107]%N [105]%N [] [109]%N [120; 36; 121]%N.   (* build o: check i / imports = m / module = x$y *)
+Theorem build_statement_roundtrip_raw_module_refuted : exists t,
+  good_path (t_out t) /\ good_path (t_input t) /\ ident (t_action t) /\ good_value (t_imports t) /\ good_value (t_module t) /\
+  parse_build (render false t ++ []) <>
+  Some (Parsed [lits (t_out t)] (t_action t) [lits (t_input t)] (map lits (t_deps t))
+               [(kw_imports, lits (t_imports t)); (kw_module, lits (t_module t))], []).
+Proof.
+  exists st_dollar.
+  assert (C : forall l : list N, forallb (fun c => negb ((c =? c_nl) || (c =? c_cr) || (c =? c_pipe) || (c =? c_nul))%N) l = true ->
+              forall c, In c l -> path_char c /\ value_char c).
+  { intros l Hl c Hc. rewrite forallb_forall in Hl. specialize (Hl c Hc).
+    rewrite negb_true_iff, !orb_false_iff, !N.eqb_neq in Hl. unfold path_char, value_char. tauto. }
+  split; [split; [discriminate | intros c H; apply (C [111]%N eq_refl c H)]|].
+  split; [split; [discriminate | intros c H; apply (C [105]%N eq_refl c H)]|].
+  split; [split; [discriminate | intros c H; simpl in H; repeat (destruct H as [<-|H]; [reflexivity|]); destruct H]|].
+  split; [intros c H; apply (C [109]%N eq_refl c H)|].
+  split; [intros c H; apply (C [120; 36; 121]%N eq_refl c H)|].
+  vm_compute. discriminate.
+Qed.
+Print Assumptions build_statement_roundtrip_raw_module_refuted.
+
 (* ---- 7. the two hypotheses are needed (findings on the unchanged code) ---------------------- *)
 Definition mk (p t n : N) (k : kind) (f key : N) : module := Module p t n k f key false.
 (* /p/d1/x.py and /p/d2/x.py, both requested, both named x -> one output path *)
@@ -207,3 +264,11 @@ Example ex_lexer :
   lex_path [97; 124; 98; 10]%N = LDone [TLit 97] [124; 98; 10]%N /\
   lex_value [97; 36; 120; 45; 121; 36; 123; 122; 125; 10]%N = LDone [TLit 97; TVar [120; 45; 121]%N; TVar [122]%N] [].
 Proof. vm_compute. split; reflexivity. Qed.
+(* a statement with space, colon and dollar in every path, two dependencies, escaped module name *)
+Example ex_statement :
+  let t := Stmt [47; 111; 32; 36; 120; 58; 121]%N [105; 110; 102; 101; 114]%N [47; 112; 32; 113; 47; 97; 36; 98; 46; 112; 121]%N
+                [[100; 32; 49]; [100; 58; 36; 50]]%N [47; 105; 32; 58; 36]%N [97; 36; 98]%N in
+  parse_build (render true t ++ [120]%N) =
+  Some (Parsed [lits (t_out t)] (t_action t) [lits (t_input t)] (map lits (t_deps t))
+               [(kw_imports, lits (t_imports t)); (kw_module, lits (t_module t))], [120]%N).
+Proof. vm_compute. reflexivity. Qed.
